@@ -25,7 +25,7 @@ from . import symx
 from .symx import Engine, ConcreteEngine, Violation, Inconclusive
 
 VERIF = pathlib.Path(__file__).resolve().parent.parent
-REPO = pathlib.Path(os.environ.get("VERIF_REPO", "/repo"))
+REPO = pathlib.Path(os.environ.get("VERIF_REPO") or "/repo")
 _perf = time.perf_counter
 
 
@@ -607,8 +607,9 @@ def main(argv=None):
         "wall_s": round(wall, 2),
         "violations": new_violations,
     }
-    (VERIF / "evidence").mkdir(exist_ok=True)
-    (VERIF / "evidence" / (pid + ".json")).write_text(json.dumps(ev, indent=1, default=str, ensure_ascii=False))
+    evdir = pathlib.Path(os.environ.get("VERIF_EVIDENCE_DIR") or (VERIF / "evidence"))
+    evdir.mkdir(exist_ok=True, parents=True)
+    (evdir / (pid + ".json")).write_text(json.dumps(ev, indent=1, default=str, ensure_ascii=False))
 
     for line in printed:
         print(line)
@@ -688,4 +689,14 @@ def do_replay(mod, pid, path):
 
 
 if __name__ == "__main__":
-    sys.exit(main())
+    try:
+        rc = main()
+    except SystemExit as ex:
+        rc = ex.code if isinstance(ex.code, int) else 2
+        if rc == 1:
+            rc = 2          # exit status 1 is reserved for a reproduced violation
+    except BaseException:
+        traceback.print_exc()
+        print("INCONCLUSIVE: harness error (see traceback)")
+        rc = 2
+    sys.exit(rc)
